@@ -147,10 +147,12 @@ def trigHashEnv (ki : KindInfo) (v : TV) : Bool :=
     p.2.any fun f => f.1 == c!"Environment" && hasInfix hashLine f.2
 
 /-- F-C20-10: the printed `Signed-By` value of an apt-sources repository is a key block whose first
-    line starts with `#` (printed on a continuation line of its own: a comment line for the reader) -/
+    line starts with `#` (printed on a continuation line of its own: a comment line for the reader);
+    the per-field predicate `signedHashField` is defined in `Props/C20Blank.lean`, its negation is the
+    hypothesis `hSignedHash` of `C20Apt.C20_roundtrip_repos_shipped_keyblock` -/
 def trigHashSigned (ki : KindInfo) (v : TV) : Bool :=
   (structsOf ki v).any fun p => p.1 == "aptsources.Repository" &&
-    p.2.any fun f => f.1 == c!"Signed-By" && hashLine.isPrefixOf f.2
+    p.2.any Props.C20Blank.signedHashField
 
 /-- F-C20-9 (lossy-reader kinds release / source / package): the trigger is defined once, in
     `Props/C20Blank.lean` (`trigBlankFirst`, a predicate on the request text: some field has an empty
